@@ -119,3 +119,23 @@ impl LuaIndex for DiagnosticIndex {
         self.file_diagnostic_enabled.clear();
     }
 }
+
+/// Entry counts of every map of this index (verification hook, add-only, off by default).
+#[cfg(feature = "verif")]
+impl DiagnosticIndex {
+    pub fn verif_sizes(&self) -> Vec<(String, usize)> {
+        let p = "diagnostic";
+        let mut v: Vec<(String, usize)> = Vec::new();
+        let mut put = |name: &str, n: usize| v.push((format!("{p}.{name}"), n));
+        put("diagnostic_actions", self.diagnostic_actions.len());
+        put("diagnostic_actions.items", self.diagnostic_actions.values().map(|s| s.len()).sum());
+        put("diagnostics", self.diagnostics.len());
+        put("diagnostics.items", self.diagnostics.values().map(|s| s.len()).sum());
+        put("file_diagnostic_disabled", self.file_diagnostic_disabled.len());
+        put("file_diagnostic_disabled.items", self.file_diagnostic_disabled.values().map(|s| s.len()).sum());
+        put("file_diagnostic_enabled", self.file_diagnostic_enabled.len());
+        put("file_diagnostic_enabled.items", self.file_diagnostic_enabled.values().map(|s| s.len()).sum());
+
+        v
+    }
+}
